@@ -302,8 +302,16 @@ def class_rooted(node, f, model, aliases):
     """is ``node`` an expression that denotes (part of) class level state: cls.X, Class.X, type(self).X, subscripts of
     those, or a local alias of one"""
     b = node
-    while isinstance(b, ast.Subscript):
-        b = b.value
+    while True:
+        if isinstance(b, ast.Subscript):
+            b = b.value
+        elif isinstance(b, ast.Call) and isinstance(b.func, ast.Attribute) and b.func.attr in ('get', 'setdefault', 'values', 'items', 'keys'):
+            b = b.func.value        # a view / an entry of the container, not a copy
+        elif isinstance(b, ast.Call) and isinstance(b.func, ast.Attribute) and isinstance(b.func.value, ast.Name) and b.func.value.id in ('cls', 'self') and \
+                b.func.attr in ROOTED_RETURNS.get(id(model), ()):
+            return True             # a method that hands out class level state itself
+        else:
+            break
     if isinstance(b, ast.Name) and b.id in aliases:
         return True
     if isinstance(b, ast.Attribute):
@@ -322,6 +330,22 @@ def class_rooted(node, f, model, aliases):
     return False
 
 
+ROOTED_RETURNS = {}
+
+
+def rooted_returning_methods(model):
+    """names of methods whose return value is (part of) class level state, e.g. _get_registered_variants"""
+    out = set()
+    ROOTED_RETURNS[id(model)] = out
+    for f in model.functions():
+        if f.module.external or f.cls is None:
+            continue
+        for n in ast.walk(f.node):
+            if isinstance(n, ast.Return) and n.value is not None and isinstance(n.value, (ast.Attribute, ast.Subscript)) and class_rooted(n.value, f, model, ()):
+                out.add(f.name)
+    return out
+
+
 def stateless_parsing(ctx, report):
     """a parse must cost the same whatever was parsed before: outside the registration API no function of the package
     assigns to class level state or mutates a container it reached through a class attribute (directly or through a
@@ -329,6 +353,7 @@ def stateless_parsing(ctx, report):
     from .c14 import class_state_stores
     model = ctx.model
     report.rule('C19.R5', 'no function outside the registration API writes class level state (work independent of earlier parses)')
+    rooted_returning_methods(model)
     for f in model.functions():
         if f.module.external or f.name in REGISTRATION_API:
             continue
@@ -336,7 +361,7 @@ def stateless_parsing(ctx, report):
         aliases = set()
         for n in ast.walk(f.node):
             if isinstance(n, ast.Assign) and len(n.targets) == 1 and isinstance(n.targets[0], ast.Name) and \
-                    isinstance(n.value, (ast.Attribute, ast.Subscript)) and class_rooted(n.value, f, model, ()):
+                    isinstance(n.value, (ast.Attribute, ast.Subscript, ast.Call)) and class_rooted(n.value, f, model, ()):
                 # a method object or a scalar read is not a container alias: only subscripts / attributes that are later mutated matter
                 aliases.add(n.targets[0].id)
         init = memo_guarded(f, model)
